@@ -35,7 +35,9 @@ BUDGET = {"quick": 75, "thorough": 800}
 RULE = (
     "case = history of 2-12 calls (parse / encode / decode_simple_value / "
     "pvl_validate dialect parse+encode / pvl_translate encoder) with generated "
-    "inputs; every call is repeated on a fresh instance. Non-trivial = a failing or "
+    "inputs; every call is repeated on a fresh instance; plus, per parser variant and "
+    "encoder, one instance soaked with 400 (quick) / 5000 (thorough) mostly failing "
+    "calls. Non-trivial = a failing or "
     "repair-producing call precedes another call on the same instance; distinct by "
     "history."
 )
@@ -66,6 +68,13 @@ FIXED_TEXTS = [
     "a = word\nb = foo*/\n",
     "a = /*never_closed",
     "a = b#c\n",
+    # text that ends (or fails) deep inside nested sequences, sets and blocks, and a
+    # deep well-formed one: whatever a parser counts on the way down has to be back
+    # at zero however the parse ends
+    "a = " + "(" * 120,
+    "a = " + "{(" * 45 + "1, 2",
+    "a = " + "(" * 40 + "1" + ")" * 40 + "\nEND\n",
+    "".join(f"GROUP = g{i}\n" for i in range(70)) + "x = (1, 2\n",
 ]
 
 VALIDATE_FRESH = {
@@ -150,7 +159,7 @@ def _noaddr(outcome):
     return tuple(_ADDR.sub("0x", x) if isinstance(x, str) else x for x in outcome)
 
 
-def run_history(history):
+def run_history(history, stop_at_first=False):
     """None or (signature, detail).  Every history starts from new long-lived
     instances (and freshly imported CLI modules), so that a history is a complete,
     replayable reproduction."""
@@ -351,11 +360,47 @@ def fixed_histories(acc, part=None):
                     acc.fail(r[0], dict(history=[list(c) for c in hist]), r[1])
 
 
+# texts that fail at some depth inside a value or a block, and texts that load
+SOAK_TEXTS = [
+    "a = (1, 2\n", "a = ((1, (2, {3\n", "GROUP = g\n OBJECT = o\n x = (1,\n",
+    "a = {1, (2, 3}\n", "a = (1 2)\nEND\n", "a = \"open", "a = 1 <m", "a =\nb = (1,",
+    "a = (1, (2, 3))\nEND\n", "GROUP = g\n x = 1\nEND_GROUP\nEND\n", "a = ((((((1\n",
+    "a = {{{{\n", "k =\nj =\n", "a = (1, \x01)\n", "a = 1 = 2", "a = \"dash-\n x\"\nb =\n",
+    "OBJECT = o\n GROUP = g\n  a = (1, {2, (3\n", "a = (1,, 2)\n", "a = 5 <m> <s>\n",
+    "x = (1, 2) <m>\nEND\n", "a = b*/\n", "a = 12:00:60\nb = 2001-01-01T00:00:00.1234567\n",
+]
+
+
+def soak(acc, who, n):
+    """One long-lived instance gets *n* calls (the texts / modules above, cycling in an
+    order that changes every round); every call is repeated on a fresh instance.  What a
+    short history cannot show - state that only builds up over many failing calls -
+    shows here.  A failure is an ordinary history (all calls so far) and replays alone."""
+    hist = []
+    if who in PARSERS:
+        for i in range(n):
+            hist.append(("parse", who, SOAK_TEXTS[(i * 7 + i // len(SOAK_TEXTS))
+                                                  % len(SOAK_TEXTS)]))
+    else:
+        mods = c13.PROVOKERS + [[["g", {"grp": [["x", 1], ["y", {"seq": [1, 2]}]]}],
+                                 ["o", {"obj": [["z", {"set": [1, 2]}]]}]]]
+        for i in range(n):
+            hist.append(("encode", who, mods[(i * 5 + i // len(mods)) % len(mods)]))
+    r = run_history(hist, stop_at_first=True)
+    acc.case(key=f"soak:{who}:{n}", nontrivial=True, n=n)
+    acc.event("soak_calls", n)
+    if r is not None:
+        step = int(r[1].split()[1])
+        acc.fail(r[0], dict(history=[list(c) for c in hist[:step + 1]]), r[1])
+
+
 def shards(tier, seed):
     n = 110 if tier == "quick" else 1500
     out = [("random_histories", dict(n=n, seed=seed * 1000 + j)) for j in range(16)]
     out = [("fixed_histories", dict(part=p))
            for p in list(PARSERS) + ["v-" + dn for dn in VALIDATE_FRESH]] + out
+    out += [("soak", dict(who=w, n=400 if tier == "quick" else 5000))
+            for w in list(PARSERS) + list(ENCODERS)]
     return out
 
 
